@@ -2,7 +2,7 @@
 and the factory that wires model + lite + deep interpreter together."""
 import ast
 
-from .model import Program, AnalysisError, norm_text
+from .model import Program, AnalysisError, norm_text, canon_text
 from .lite import Lite
 from .absint import Interp
 from .values import *
@@ -16,13 +16,13 @@ INTERNAL_ASSERTS = {
     "numbertheory:jacobi": "preconditions n >= 3, n odd: callers pass an odd prime p (A5) or the odd part a1 >= 3 of a residue (own recursion)",
     "numbertheory:polynomial_reduce_mod": "monic modulus polynomial built by square_root_mod_prime as (a, -b, 1)",
     "numbertheory:polynomial_exp_mod": "exponent (p+1)//2 < p for p >= 3",
-    ("numbertheory:square_root_mod_prime", "ff[1] == 0"): "algebraic fact about x^((p+1)/2) in F_p[x]/(f) (Cipolla); not input-shape dependent",
+    ("numbertheory:square_root_mod_prime", "_[1] == 0"): "algebraic fact about x^((p+1)/2) in F_p[x]/(f) (Cipolla); not input-shape dependent",
     ("numbertheory:square_root_mod_prime", "1 < p"): "p is a field prime (A5)",
     "ellipticcurve:PointJacobi._maybe_precompute": "only points constructed with generator=True reach the assert and every such construction passes an order (side condition checked: generator_flag_has_order)",
     "ellipticcurve:PointJacobi.mul_add": "NAF digits are in {-1, 0, 1}: the else-branch after == 0 and < 0 tests is > 0",
     "ellipticcurve:Point.__init__": "legacy affine constructor: results of the group formulas lie on the curve (algebra, not decided here)",
     "ellipticcurve:Point.__add__": "both operands on the same curve: internal callers add a point to itself / its negation",
-    "ellipticcurve:Point.__mul__.<locals>.leftmost_bit": "called with 3*e for e > 0",
+    "ellipticcurve:Point.__mul__.<locals>.*": "the nested helper (leftmost_bit) is called with 3*e for e > 0",
     "numbertheory:factorization": "type precondition of a public helper outside every decoder cone",
     "numbertheory:phi": "deprecated helper outside every cone",
     "numbertheory:order_mod": "deprecated helper outside every cone",
@@ -46,10 +46,18 @@ VALUE_PRESERVING_WRITERS = {
 }
 
 
-def internal_assert_reason(qname, node):
+def internal_assert_reason(qname, node, fnode=None):
     if qname in INTERNAL_ASSERTS:
         return INTERNAL_ASSERTS[qname]
-    return INTERNAL_ASSERTS.get((qname, norm_text(node.test)))
+    if ".<locals>." in qname:
+        k = qname.rsplit(".<locals>.", 1)[0] + ".<locals>.*"
+        if k in INTERNAL_ASSERTS:
+            return INTERNAL_ASSERTS[k]
+    r = INTERNAL_ASSERTS.get((qname, norm_text(node.test)))
+    if r is None and fnode is not None:
+        # keys are written with local variable names replaced by `_`
+        r = INTERNAL_ASSERTS.get((qname, canon_text(fnode, node.test)))
+    return r
 
 
 def default_policy(f):
@@ -95,12 +103,16 @@ class World(object):
         # every table key must name an existing function: a stale table is an analysis error
         for k in list(INTERNAL_ASSERTS) + [q for q, _e in INFEASIBLE] + list(VALUE_PRESERVING_WRITERS):
             q = k if isinstance(k, str) else k[0]
+            if q.endswith(".<locals>.*"):
+                if not any(f.qname.startswith(q[:-1]) for f in self.p.all_funcs()):
+                    raise AnalysisError("table entry names a function without nested helpers: %s" % q)
+                continue
             if self.p.func(q, required=False) is None:
                 raise AnalysisError("table entry names a vanished function: %s" % q)
 
     def interp(self, policy=None):
         it = Interp(self.p, policy=policy or default_policy, lite=self.lite)
-        it.internal_asserts = lambda ctx, node: internal_assert_reason(ctx.qname, node)
+        it.internal_asserts = lambda ctx, node: internal_assert_reason(ctx.qname, node, self.p.func(ctx.qname).node if self.p.func(ctx.qname, required=False) else None)
         classes = set(self.p.class_by_name)
         for fld, tags in self.lite.field_types.items():
             ks = {t for t in tags if t in classes or t == "INFINITY"}
